@@ -123,6 +123,17 @@ class ExcVal:
         return f"<exc {self.cls}>"
 
 
+class NpMask:
+    """`arr == value` on a numpy array: a boolean mask, usable only as the index of a masked store"""
+
+    def __init__(self, arr, value):
+        self.arr, self.value = arr, value
+
+
+POS_INF = z3.Real("float_pos_inf")      # float("inf") / float("-inf"): two constants that are only ever compared
+NEG_INF = z3.Real("float_neg_inf")
+
+
 class Opaque:
     """a value whose content is dropped (f-string text, repr(...), log message)"""
 
@@ -971,6 +982,21 @@ def mem_has_position(seq_e, elem_sort):
     x = z3.Const(fresh_name("px"), elem_sort)
     p = seq_pos_z3(seq_e, x)
     return z3.ForAll([x], z3.Implies(seq_mem_z3(seq_e, x), z3.And(p >= 0, p < z3.Length(seq_e), seq_e[p] == x)))
+
+
+_KPOS_FNS = {}
+
+
+def items_kpos_z3(items_e, key_e):
+    """KPOS(items, k): the index at which key k occurs in the item sequence of a map (constrained by the enumeration)"""
+    key = (str(items_e.sort()), str(key_e.sort()))
+    if key not in _KPOS_FNS:
+        _KPOS_FNS[key] = z3.Function("KPOS_%d" % len(_KPOS_FNS), items_e.sort(), key_e.sort(), z3.IntSort())
+    return _KPOS_FNS[key](items_e, key_e)
+
+
+def items_kpos(items, key):
+    return Sym(IntT, items_kpos_z3(items.e, coerce(key, items.ty.elem.elems[0])))
 
 
 _UNION_FIELD_FNS = {}
